@@ -283,6 +283,7 @@ def main(argv=None):
             samples=samples[:6] or [dict(note="no path sampled")],
             obligations=int(agg.get("obligations", 0)), discharged=int(agg.get("discharged", 0)),
             violated=int(agg.get("violated", 0)), unknown=int(agg.get("unknown", 0)),
+            refutations_only_within_1e_6_of_a_rounding_boundary=int(agg.get("boundary_only", 0)),
             trivially_true_obligations=int(agg.get("trivial", 0)),
             paths=dict(ok=agg.get("ok", 0), exception=agg.get("exc", 0), aborted_out_of_bound=agg.get("aborted", 0),
                        unsupported=agg.get("unsupported", 0), solver_unknown=agg.get("unknown_paths", 0),
